@@ -840,6 +840,45 @@ func init() {
 		return tuple{iface{types.NewPointer(lookupNamed(fr.i.prog, "github.com/robfig/cron/v3", "SpecSchedule")), box(spec)}, iface{}}
 	})
 
+	// ---- sort (insertion sort driven by the target's less function; stable)
+	sortSlice := func(fr *frame, args []value) value {
+		iv := args[0].(iface)
+		xs, ok := iv.v.([]value)
+		if !ok {
+			panic(unsupported{"sort.Slice on a non-slice"})
+		}
+		p := fr.i.path
+		for i := 1; i < len(xs); i++ {
+			for j := i; j > 0; j-- {
+				r := call(fr.i, fr, token.NoPos, args[1], []value{j, j - 1})
+				if !p.concBool(r) {
+					break
+				}
+				xs[j], xs[j-1] = xs[j-1], xs[j]
+			}
+		}
+		return nil
+	}
+	E("sort.Slice", sortSlice)
+	E("sort.SliceStable", sortSlice)
+	sortBasic := func(fr *frame, args []value) value {
+		xs := args[0].([]value)
+		p := fr.i.path
+		for i := 1; i < len(xs); i++ {
+			for j := i; j > 0; j-- {
+				r := binop(fr, token.LSS, nil, xs[j], xs[j-1])
+				if !p.concBool(r) {
+					break
+				}
+				xs[j], xs[j-1] = xs[j-1], xs[j]
+			}
+		}
+		return nil
+	}
+	E("sort.Strings", sortBasic)
+	E("sort.Ints", sortBasic)
+	E("sort.Float64s", sortBasic)
+
 	// ---- runtime
 	E("runtime.Caller", func(fr *frame, args []value) value { return tuple{uintptr(0), "", 0, false} })
 	E("runtime.FuncForPC", func(fr *frame, args []value) value { return (*value)(nil) })
